@@ -100,6 +100,10 @@ class PolySpec:
 
 def _declare(comp, spec, style):
     pat = spec.pattern()
+    drop = getattr(spec, 'drop', {})
+    if drop:
+        # deliberately under-declared sparsity (C13): the listed structural nonzeros are left out of the declaration
+        pat = {k: [rc for rc in nz if rc not in drop.get(k, ())] for k, nz in pat.items()}
     for (o, v), nz in pat.items():
         if isinstance(style, str) and style.startswith('approx:'):
             # partials approximated by the framework: approx:<method>:<form>:<step_calc>:<step>
